@@ -6,8 +6,8 @@ from .common import bump
 ID = "C16"
 AREA = "c16"
 LEAN_PROPS = "Litep2pVerif.Props.C16"
-THEOREMS = ["terminal_once", "terminal_accounted", "terminal_once_at_quiescence_partial", "put_quorum_sound", "quorum_clamp_rule",
-            "settle_covers_timeouts"]
+THEOREMS = ["terminal_once", "terminal_accounted", "waiting_owned", "occupied_unreachable",
+            "terminal_once_at_quiescence", "put_quorum_sound", "quorum_clamp_rule", "settle_covers_timeouts"]
 CONSTS = ["KAD_READ_TIMEOUT_SECS", "KAD_WRITE_TIMEOUT_SECS"]
 _EXE = "src/protocol/libp2p/kademlia/executor.rs"
 CONST_TABLE = [
@@ -19,10 +19,17 @@ MANIFEST = {
             "per-peer pending actions, executor futures, the PUT_VALUE/ADD_PROVIDER tracker with its quorum clamping, and the "
             "iterative lookups abstracted to their pending sets), for every schedule of commands, engine actions, transport "
             "events and executor results: terminal_once, terminal_accounted (live xor exactly one terminal event), "
-            "put_quorum_sound, quorum_clamp_rule; terminal_once_at_quiescence_partial takes the ownership invariant "
-            "(every peer a live query waits for is owned by an outstanding dial, substream open or executor future) as a "
-            "hypothesis - that invariant is an executable predicate re-checked on every state of every validated trace, "
-            "not an unbounded theorem; plus a trace-validated correspondence run of the real Kademlia "
+            "waiting_owned (the ownership invariant: every peer a live query waits for is owned by an outstanding dial, "
+            "tracked substream open or executor future - proved by induction over the transition system together with "
+            "`peers` keys being connected peers and substream ids being unique), occupied_unreachable (the Entry::Occupied "
+            "branch of on_connection_established is dead), terminal_once_at_quiescence (full strength: once every "
+            "obligation is discharged and the engine drained, no query is live and every started operation has exactly "
+            "one terminal event), put_quorum_sound (a reported success counted the clamped quorum of distinct peers, each "
+            "backed by a send-success result of a PUT_VALUE/ADD_PROVIDER future - never of a lookup-phase request of the "
+            "same query id, by the invariants `at most one record per lookup query and peer` and `no request future in "
+            "flight for a peer the tracker waits for`), quorum_clamp_rule; the ownership predicate is additionally "
+            "re-evaluated on every state of every validated trace (guarding the tie, not a hypothesis); "
+            "plus a trace-validated correspondence run of the real Kademlia "
             "event loop (paused clock, in-memory substreams, scripted transport events and remote peers) against the model, "
             "and a property-level oracle (per query exactly one terminal event once the environment has discharged every "
             "obligation; success of a put/announce only with enough peers that received the data).",
@@ -39,7 +46,11 @@ RULE = ("seeded scenarios on networks of 2-5 remote peers (address kinds dialabl
         "establishment, disconnect before/after the request, substream open failure, silent peer + timeouts, undecodable "
         "or wrong reply), cooperative and random schedules, each ending with `settle` (the environment discharges every "
         "obligation); run on the real Kademlia event loop and validated step by step against the Lean model; non-trivial = "
-        "at least one terminal event and one engine action; distinct = distinct transcripts by SHA-256")
+        "at least one terminal event and one engine action; distinct = distinct transcripts by SHA-256; plus S2 scenarios on "
+        "real Litep2p nodes over loopback TCP (local node, healthy peer G, fault target F: healthy / only an address of a "
+        "transport that is not enabled / closed TCP port / local node at its outgoing-connection limit) x {put to [G,F], "
+        "find_node, start_providing} x quorum, real clock, deadline 75 s (12 s where nothing but the missing event is "
+        "awaited), no timing compared; the model predicts the terminal kind from the tracker's clamping rule")
 TRUSTED_BASE = ["Lean 4.33 kernel", "axioms: propext, Classical.choice, Quot.sound only",
                 "hand-written model Model/Kad/Coordinator.lean tied to kademlia/mod.rs by trace validation",
                 "adapter /repo/src/verif/c16.rs (+ c16_engine.rs, c16_manager.rs), three trace points in kademlia/mod.rs, "
@@ -50,7 +61,8 @@ TRUSTED_BASE = ["Lean 4.33 kernel", "axioms: propext, Classical.choice, Quot.sou
                 "TransportService event ordering (C08)",
                 "tokio paused clock for the 15 s executor timeouts; in-memory yamux substreams"]
 ASSUMPTIONS = ["every accepted dial is concluded, every accepted substream open is answered, every executor future completes "
-               "(by reply, close or its timeout)",
+               "(by reply, close or its timeout) - the real transport manager breaks the first one when the node is at its "
+               "outgoing-connection limit (known finding dial-at-connection-limit-never-concluded, S2 witness in the corpus)",
                "ConnectionEstablished is only delivered for a peer without connection, substream events only for open connections",
                "query ids are unique (shared atomic counter of the handle)",
                "a lookup whose pending set is empty yields an action (C15 terminates)"]
@@ -239,7 +251,32 @@ def corpus():
         ["net g g", "add_known_peer 1", "put_record_to 1 1 one", "established 1", "subfail #0", "settle"],
         ["net g g", "add_known_peer 1", "find_node 5", "established 1", "subopen #0", "reply #0 garbage", "settle"],
         ["net g g", "add_known_peer 1", "get_providers 3", "established 1", "subopen #0", "reply #0 addprov", "settle"],
+        # S2 witness of the known finding `dial-at-connection-limit-never-concluded` (real nodes, ~15 s)
+        [S2_LIMIT_WITNESS],
     ]
+
+
+# ------------------------------------------------------------------ S2: real nodes on loopback, one fault placement
+
+S2_FAULTS = ["none", "undialable", "refused", "limit"]
+S2_OPS = ["put_to", "find_node", "start_providing"]
+S2_LIMIT_WITNESS = "s2 fault=limit op=put_to quorum=all wait=12"
+
+
+def s2_cases(rng, tier):
+    """quick: the three fault placements that end by themselves, put to [G, F] with quorum All (a few seconds each;
+    the `limit` witness is in the corpus); thorough/search: every fault x operation x quorum (the `limit` ones wait
+    12 s for the terminal event that never comes)."""
+    if tier == "quick":
+        return [[f"s2 fault={f} op=put_to quorum=all"] for f in ("none", "undialable", "refused")]
+    res = []
+    for f in S2_FAULTS:
+        for op in S2_OPS:
+            for q in (QUORUMS if op != "find_node" else ["one"]):
+                if f == "limit" and (op, q) not in (("put_to", "one"), ("find_node", "one"), ("start_providing", "all")):
+                    continue
+                res.append([f"s2 fault={f} op={op} quorum={q}" + (" wait=12" if f == "limit" else "")])
+    return res
 
 
 def gen_cases(rng, tier):
@@ -253,12 +290,18 @@ def gen_cases(rng, tier):
     for _ in range(n_rand):
         g.key = 0
         yield g.random_case()
+    yield from s2_cases(rng, tier)
     # malformed stream
+    yield ["s2 fault=bogus op=put_to quorum=all"]
     yield ["net g g", "frobnicate", "established x", "reply", "settle"]
     yield ["established 1", "settle"]
 
 
 def mutate_case(rng, case, n):
+    if case and case[0].startswith("s2"):
+        for _ in range(min(n, 6)):
+            yield [f"s2 fault={rng.choice(S2_FAULTS[:3])} op={rng.choice(S2_OPS)} quorum={rng.choice(QUORUMS)}"]
+        return
     g = Gen(rng)
     peers = max(2, len([t for t in case[0].split()[1:] if "=" not in t])) if case else 2
     for _ in range(n):
@@ -324,7 +367,10 @@ def oracle(case, out):
         if o.startswith("panic"):
             v("panic", f"panic: {o}", i)
             break
-        if o in ("skipped", "bad-op", "ok") or o == "":
+        if o in ("skipped", "bad-op", "ok", "inconclusive") or o == "":
+            continue
+        if op.startswith("s2 "):
+            oracle_s2(op, o, i, v)
             continue
         head, parts = split_parts(op, o)
         for sub, obs in parts:
@@ -376,10 +422,41 @@ def oracle(case, out):
     return bad
 
 
+S2_TERMINALS = {"put_to": TERMINALS["put_record_to"], "find_node": TERMINALS["find_node"],
+                "start_providing": TERMINALS["start_providing"]}
+
+
+def oracle_s2(op, o, i, v):
+    """The property on real nodes: exactly one terminal event of the right family for the operation; a put reports
+    success only if the clamped quorum of its two targets received the record."""
+    args = dict(t.split("=", 1) for t in op.split()[1:] if "=" in t)
+    obs = dict(t.split("=", 1) for t in o.split()[1:] if "=" in t)
+    kind = args.get("op")
+    if kind not in S2_TERMINALS or "terminal" not in obs:
+        return
+    events = [e for e in obs["terminal"].split(",") if e and e != "-"]
+    received = [r for r in obs.get("received", "-").split(",") if r and r != "-"]
+    if not events:
+        v("no-terminal-s2", f"{kind} on real nodes (fault placement {args.get('fault')}) produced no terminal event "
+          f"within the deadline", i, s2_fault=args.get("fault"), opkind=kind)
+        return
+    if len(events) > 1:
+        v("double-terminal", f"{kind} on real nodes got {len(events)} terminal events: {events}", i)
+    if events[0] not in S2_TERMINALS[kind]:
+        v("wrong-terminal-kind", f"{kind} on real nodes ended with {events[0]}", i)
+    if kind == "put_to" and events[0] == "PutRecordSuccess":
+        need = clamp(args.get("quorum", "one"), 2)
+        if len(received) < need:
+            v("quorum-unsound", f"put to two real peers reported success with quorum {args.get('quorum')} (needs {need}) "
+              f"but only {received} received the record", i)
+
+
 def stats(case, out, acc):
     for op, o in zip(case, out):
         t = op.split()
         bump(acc, "op:" + (t[0] if t else "?"))
+        if t and t[0] == "s2":
+            bump(acc, "s2:" + " ".join(x for x in t[1:3]) + " -> " + (o.split()[1] if len(o.split()) > 1 else o))
         for tok in o.replace(" | ", " ").split():
             f = tok.split(":")
             if f[0] == "ev" and len(f) == 3:
@@ -395,11 +472,14 @@ def stats(case, out, acc):
 
 def nontrivial(case, out):
     text = " ".join(out)
-    return " ev:" in text and "act:" in text
+    return (" ev:" in text and "act:" in text) or "s2 terminal=" in text
 
 
 def matches_known(k, v):
-    return False
+    """Only the S2 `limit` placement without terminal event matches the known finding; every other violation (also a
+    missing terminal event under any other fault placement, or in S1) is reported."""
+    sig = k.get("signature", {})
+    return (v.get("kind") == sig.get("kind") == "no-terminal-s2" and v.get("s2_fault") == sig.get("s2_fault") == "limit")
 
 
 def model_lines(case, impl):
